@@ -45,9 +45,12 @@ def check_scan(rep, rule, inst, file, line, it, st, seq, S, first_index, init_wa
     if not isinstance(seq, SeqScan):
         return ['%s is not a stateful map over the pieces (%s)' % (what, type(seq).__name__)]
     s = seq.src
-    if not (isinstance(s, Stream) and s.kind == 'map' and isinstance(s.parts[0], Stream) and s.parts[0].kind == 'src'):
-        return ['%s: source is not map(iter(segments))' % what]
-    sl = s.parts[0].parts[0]
+    # the traversal source, whatever produced the recurrence (map with a stateful closure, scan, or an explicit loop)
+    while isinstance(s, Stream) and s.kind in ('map', 'scan'):
+        s = s.parts[0]
+    if not (isinstance(s, Stream) and s.kind == 'src' and isinstance(s.parts[0], SliceRef)):
+        return ['%s: source is not a traversal of the segments' % what]
+    sl = s.parts[0]
     lenS = ('len', S)
     if not (isinstance(sl, SliceRef) and sl.start == ('ic', first_index) and sl.end == lenS):
         probs.append('%s scans segments[%s..%s), expected [%d..len)' % (what, term_str(sl.start), term_str(sl.end), first_index))
@@ -164,27 +167,46 @@ def check(cx):
             rep.analysed_fns.add(inst)
             it, st = a.it, a.state.copy()
             r = a.ret
-            if not (isinstance(r, Stream) and r.kind == 'map' and r.parts[0] == Stream('opaque', (('into_iter', sym('segments')),))):
-                rep.ob('iter', inst, False, 'result is not map(into_iter(segments), closure)', fn=inst, file=file, line=line,
+            opaque_in = Stream('opaque', (('into_iter', sym('segments')),))
+            if not (isinstance(r, Stream) and r.kind in ('map', 'scan') and r.parts[0] == opaque_in):
+                rep.ob('iter', inst, False, 'result is not a lazy map/scan over into_iter(segments)', fn=inst, file=file, line=line,
                        msg='%s does not return a lazy map over the given segments' % name)
                 return
-            cell = r.parts[1]
-            clos = it.read(st, cell.root, cell.path)
-            rep.analysed_fns.add(clos.path)
-            init_knot = clos.captures[0]
-            ok_init = isinstance(init_knot, Struct) and init_knot.fields == (sym('knot0.x'), sym('knot0.y'))
-            # havoc the running knot
             sx, sy = sym('σx'), sym('σy')
-            it.write(st, cell.root, cell.path, Closure(clos.path, (Struct('poly::Knot', (sx, sy)),) + tuple(clos.captures[1:])))
             segty = adt('piecewise::Segment', T)
             segv = it.materialize(segty, 'seg', st)
-            cf = it.facts.fn(clos.path)
-            arg_ty = cf['body']['locals'][2]['ty']
-            arg = Ref(it.alloc(st, segv, 'seg'), ()) if arg_ty['k'] == 'ref' else segv
-            ctx = CallCtx(it, None, st, None, [], None, None)
-            out = it.call_closure(ctx, cell, [arg])
-            after = it.read(ctx.state, cell.root, cell.path)
-            k2 = after.captures[0]
+            if r.kind == 'map':
+                cell = r.parts[1]
+                clos = it.read(st, cell.root, cell.path)
+                rep.analysed_fns.add(clos.path)
+                init_knot = clos.captures[0] if clos.captures else None
+                # havoc the running knot
+                it.write(st, cell.root, cell.path, Closure(clos.path, (Struct('poly::Knot', (sx, sy)),) + tuple(clos.captures[1:])))
+                cf = it.facts.fn(clos.path)
+                arg_ty = cf['body']['locals'][2]['ty']
+                arg = Ref(it.alloc(st, segv, 'seg'), ()) if arg_ty['k'] == 'ref' else segv
+                ctx = CallCtx(it, None, st, None, [], None, None)
+                out = it.call_closure(ctx, cell, [arg])
+                after = it.read(ctx.state, cell.root, cell.path)
+                k2 = after.captures[0]
+            else:
+                state_cell, cell = r.parts[1], r.parts[2]
+                clos = it.read(st, cell.root, cell.path)
+                rep.analysed_fns.add(clos.path)
+                init_knot = it.read(st, state_cell.root, state_cell.path)
+                it.write(st, state_cell.root, state_cell.path, Struct('poly::Knot', (sx, sy)))
+                cf = it.facts.fn(clos.path)
+                arg_ty = cf['body']['locals'][3]['ty']
+                arg = Ref(it.alloc(st, segv, 'seg'), ()) if arg_ty['k'] == 'ref' else segv
+                ctx = CallCtx(it, None, st, None, [], None, None)
+                res = it.call_closure(ctx, cell, [state_cell, arg])
+                if not (isinstance(res, Enum) and res.path == OPTION and len(res.alts) == 1 and res.alts[0][1] == 1):
+                    rep.ob('iter', inst, False, 'scan closure may stop early (returns None on some path)', fn=inst, file=file, line=line,
+                           msg='%s: the scan may end before all segments are integrated' % name)
+                    return
+                out = res.alts[0][2][0]
+                k2 = it.read(ctx.state, state_cell.root, state_cell.path)
+            ok_init = isinstance(init_knot, Struct) and init_knot.fields == (sym('knot0.x'), sym('knot0.y'))
             INT = integral_of(sym('seg.poly'), sx, sy)
             want_out = ('struct', 'piecewise::Segment', sym('seg.end'), INT)
             probs = []
